@@ -96,10 +96,36 @@ fn outcome_class(r: &record::Record) -> String {
     format!("eof{}-err{}-to{}-dg{}-end{}", eof, errs, timeouts, r.dgrams.len(), r.end_t / 1000)
 }
 
+fn build_input(case: &Case, schedule: &Schedule) -> ExecInput {
+    let mut input = ExecInput::plain(schedule.clone());
+    input.injects = case.injects.clone();
+    if let Some(adv) = &case.adv {
+        let payload = (families::adv_catalogue()[adv.item].payload)(adv.attacker);
+        let (space, nth) = (adv.space, adv.nth);
+        let mut seen = 0u32;
+        let rewrite: record::TxRewrite = Box::new(move |sp, _pn, _orig| {
+            if sp != space {
+                return None;
+            }
+            seen += 1;
+            if seen - 1 == nth {
+                Some(payload.clone())
+            } else {
+                None
+            }
+        });
+        if adv.attacker == record::CLIENT {
+            input.client_rewrite = Some(rewrite);
+        } else {
+            input.server_rewrite = Some(rewrite);
+        }
+    }
+    input
+}
+
 fn run_job(cases: &BTreeMap<String, Vec<Case>>, job: &Job, monitors: &[String]) -> JobResult {
     let case = &cases[&job.family][job.case];
-    let mut input = ExecInput::plain(job.schedule.clone());
-    input.injects = case.injects.clone();
+    let input = build_input(case, &job.schedule);
     let r = execute(&case.scn, input);
     let finite = !job.schedule.iter().any(|(_, a)| matches!(a, Action::BlackholeFrom(_)));
     let mut violations = families::run_monitors(monitors, case, &r, finite);
@@ -482,7 +508,7 @@ fn main() {
             }
             let case = &cases[idx];
             let t0 = std::time::Instant::now();
-            let r = execute(&case.scn, ExecInput::plain(sched.clone()));
+            let r = execute(&case.scn, build_input(case, &sched));
             println!("{}: wall {:?} dgrams={} tx={} rx={} events={} app={} end_t={}us stalled={:?} panicked={:?}", case.scn.name, t0.elapsed(), r.dgrams.len(), r.tx.len(), r.rx.len(), r.events.len(), r.app.len(), r.end_t, r.stalled, r.panicked);
             if std::env::var("NETMC_VERBOSE").is_ok() {
                 for d in &r.dgrams {
